@@ -79,7 +79,7 @@ def handle (op : String) (a : List String) : Option String :=
       let S := oracleScheme 3 256 256 [] none true
       some s!"ok size={Padding.requestSize (Padding.pad origin).length} tokpre={hxv (tokenInput S sha256 ch n kid)} authlen=256 valid=1"
     | _, _, _, _ => none
-  | "c02.fin", [ty, ti, recheck, fin, valid, _resp] =>
+  | "c02.fin", ty :: ti :: recheck :: fin :: valid :: _ =>
     match ty.toNat?, parseV ti with
     | some ty, some ti =>
       let nk := if ty = 1 then 48 else 256
